@@ -229,12 +229,22 @@ func c11Run(c *Ctx, idx int) CaseResult {
 	res.Events = len(events)
 	writes := map[string]int{}
 	begins := map[string]int{}
+	// plugin events are attributed by the logical plan name carried in the request: recovery runs some sequences
+	// on context.Background(), where the plugin sees no plan id
+	idOfName := map[string]string{}
+	for _, pl := range plans {
+		idOfName[pl.cap.Spec.Name] = pl.cap.ID.String()
+	}
 	for _, e := range events {
 		switch e.Kind {
 		case "write", "create", "delete":
 			writes[e.PlanID]++
 		case "begin":
-			begins[e.PlanID]++
+			if id, ok := idOfName[e.Plan]; ok {
+				begins[id]++
+			} else {
+				begins[e.PlanID]++
+			}
 		}
 	}
 	for _, pl := range plans {
